@@ -12,6 +12,7 @@ import (
 	"github.com/tendermint/tendermint/libs/log"
 	"github.com/tendermint/tendermint/mempool"
 	mempoolv0 "github.com/tendermint/tendermint/mempool/v0"
+	mempoolv1 "github.com/tendermint/tendermint/mempool/v1"
 	"github.com/tendermint/tendermint/types"
 )
 
@@ -33,7 +34,11 @@ func (a *vpMemConn) FlushSync() error {
 	return nil
 }
 func (a *vpMemConn) CheckTxSync(req abci.RequestCheckTx) (*abci.ResponseCheckTx, error) {
-	return &abci.ResponseCheckTx{Code: abci.CodeTypeOK}, nil
+	if req.Type == abci.CheckTxType_New {
+		vp.Assert(!a.committing, "C05.quiesce.no-check-of-a-new-transaction-starts-between-commit-and-mempool-update")
+		a.started++
+	}
+	return &abci.ResponseCheckTx{Code: abci.CodeTypeOK, GasWanted: 1}, nil
 }
 func (a *vpMemConn) CheckTxAsync(req abci.RequestCheckTx) *abcicli.ReqRes {
 	if req.Type == abci.CheckTxType_New {
@@ -154,3 +159,35 @@ func VP_C05_Quiesce_1()            { vpC05Quiesce(1, false) }
 func VP_C05_Quiesce_2()            { vpC05Quiesce(2, false) }
 func VP_C05_Quiesce_1_concurrent() { vpC05Quiesce(1, true) }
 func VP_C05_Quiesce_2_concurrent() { vpC05Quiesce(2, true) }
+
+// vpUpdWatchV1: the same for the v1 (priority) mempool.
+type vpUpdWatchV1 struct {
+	*mempoolv1.TxMempool
+	conn *vpMemConn
+}
+
+func (m vpUpdWatchV1) Update(h int64, txs types.Txs, rs []*abci.ResponseDeliverTx, pre mempool.PreCheckFunc, post mempool.PostCheckFunc) error {
+	err := m.TxMempool.Update(h, txs, rs, pre, post)
+	m.conn.committing = false
+	return err
+}
+
+// C05-H3 for the v1 mempool: one CheckTx of a new transaction races with a commit.
+func VP_C05_Quiesce_v1_concurrent() {
+	st, _, _, _ := vpC06State()
+	memConn := &vpMemConn{}
+	cons := &vpConsConn{mem: memConn}
+	mp := mempoolv1.NewTxMempool(log.NewNopLogger(), config.DefaultMempoolConfig(), memConn, 1)
+	be := NewBlockExecutor(NewStore(dbm.NewMemDB(), StoreOptions{}), log.NewNopLogger(), cons, vpUpdWatchV1{mp, memConn}, EmptyEvidencePool{})
+	block, _ := st.MakeBlock(2, nil, types.NewCommit(1, 0, st.LastBlockID, nil), nil, st.Validators.GetProposer().Address)
+	done := make(chan struct{})
+	vp.Opt("preempt", 3)
+	go func() {
+		_ = mp.CheckTx(types.Tx{0x77, 0x01}, nil, mempool.TxInfo{})
+		close(done)
+	}()
+	_, _, err := be.Commit(st, block, nil)
+	vp.Assert(err == nil && cons.commits == 1, "C05.quiesce.commit-goes-through")
+	<-done
+	vp.Reach("committed")
+}
